@@ -16,7 +16,8 @@ func regoString(s string) string {
 	if err := encoder.Encode(s); err != nil {
 		panic(err)
 	}
-	return strings.TrimSuffix(b.String(), "\n")
+	// the Rego scanner rejects a byte order mark (U+FEFF) anywhere but at the start of a module, even inside a string
+	return strings.ReplaceAll(strings.TrimSuffix(b.String(), "\n"), "\ufeff", "\\ufeff")
 }
 
 // regoStringContent is regoString without the surrounding quotes, to be used inside a string literal template
